@@ -28,3 +28,32 @@ Proof. exact wire_validate_panic_needs_recover. Qed.
 
 Print Assumptions C11_wire_validate_panic_is_rejected.
 Print Assumptions C11_wire_validate_panic_needs_the_recover.
+
+(** Second follow-up: several Subscribe() calls on the receiving node, some Subscriptions
+    cancelled before the message. Delivery is per Subscription: for every validator input
+    (message, Validate, verifier, outcome of the wait), every list of Subscriptions - each
+    LIVE Subscription's NextHeader yields the accepted header exactly once, and it is the very
+    header the validator accepted (never the type-assertion panic); it yields nothing when the
+    message is ignored or rejected; a CANCELLED Subscription yields nothing at all. *)
+Theorem C11_delivery_is_per_subscription :
+  forall (val : hdr -> valres) (ver : hdr -> verres) (w : waitres) (m : message) (subs : list substate),
+  Forall2 (fun s d =>
+             match s, r_out (verify_message val ver w m) with
+             | SubLive, SAccept h => d = [NhOk h]
+             | _, _ => d = []
+             end) subs (handle_message_subs val ver w m subs).
+Proof. exact per_subscription_delivery. Qed.
+
+Theorem C11_no_subscription_panics :
+  forall (val : hdr -> valres) (ver : hdr -> verres) (w : waitres) (m : message) (subs : list substate) d,
+  In d (handle_message_subs val ver w m subs) -> ~ In NhPanic d.
+Proof. exact no_subscription_panics. Qed.
+
+(** non-vacuity: an accepted wire message, two live Subscriptions and a cancelled one *)
+Example C11_two_live_one_cancelled :
+  handle_message_subs (fun _ => ValNil) (fun _ => VerNil) WaitSet (Msg VdNone (DecOk ex_h1))
+                      [SubLive; SubCancelled; SubLive] = [[NhOk ex_h1]; []; [NhOk ex_h1]].
+Proof. reflexivity. Qed.
+
+Print Assumptions C11_delivery_is_per_subscription.
+Print Assumptions C11_no_subscription_panics.
